@@ -395,6 +395,62 @@ def check_time_case(name, cfg, deltas, res, lines, expect, problems, omit=(), nf
     return "".join("1" if x else "0" for x in ((consuming, consuming, consuming or fut_only)))
 
 
+# ------------------------------------------------------------------ accept side through every dispatch path
+DISPATCH = [  # (label, apply keywords)
+    ("serial+progressbar", dict(progressbar=True)),
+    ("serial+failsafe", dict(progressbar=False, failsafe=True)),
+    ("parallel nr_processes=1", dict(progressbar=False, parallel=True, nr_processes=1)),
+    ("parallel nr_processes=2", dict(progressbar=False, parallel=True, nr_processes=2)),
+    ("parallel+progressbar nr_processes=2", dict(progressbar=True, parallel=True, nr_processes=2)),
+    ("parallel+failsafe nr_processes=2", dict(progressbar=False, parallel=True, nr_processes=2, failsafe=True)),
+]
+
+
+def check_dispatch(name, lens, label, kw, with_times, res, lines, expect, problems):
+    """well-formed input with three different time lengths must be ACCEPTED through this dispatch path of the real `apply`
+    (un-instrumented instance: the parallel path pickles it), and the result lives on the documented time axis"""
+    import contextlib
+    import io
+
+    r0 = np.random.RandomState(11)
+    vals = [np.round(r0.normal(280.0, 2.0, size=(n, 2, 2)) * 64) / 64 for n in lens]
+    cfg = {"running_window_step_length": 31} if name == "ISIMIP" else {}
+    times = {}
+    if with_times:
+        cfg = {**cfg, "running_window_mode": True}
+        times = {"time_" + a: dates(n) for a, n in zip(ARGS, lens)}
+    d = make_debiaser(name, cfg)
+    exc = out = None
+    with warnings.catch_warnings():
+        warnings.simplefilter("ignore")
+        old = np.seterr(all="ignore")
+        try:
+            with contextlib.redirect_stderr(io.StringIO()):  # tqdm
+                out = d.apply(vals[0], vals[1], vals[2], **kw, **times)
+        except Exception as ex:  # noqa: BLE001
+            exc = ex
+        finally:
+            np.seterr(**old)
+    case = {"debiaser": name, "series_lengths": list(lens), "dispatch": label, "apply_kwargs": {k: v for k, v in kw.items()},
+            "cfg": cfg, "time_arrays": "given, matching" if with_times else "not given"}
+    res.count(("dispatch", name, tuple(lens), label, with_times), True, sample=case if len(res.distinct) % 61 == 7 else None)
+    if exc is not None:
+        axis = "rejected"
+        problems.append((f"well-formed input with time lengths {list(lens)} is not accepted through the {label} path: {type(exc).__name__}: {str(exc)[:100]}",
+                         {**case, "observed": f"{type(exc).__name__}: {str(exc)[:100]}"}, {"what": "wellformed_rejected_dispatch"}))
+    else:
+        shp = tuple(out.shape)
+        axis = next((a for a, n in zip(ARGS, lens) if shp == (n, 2, 2)), f"shape {shp}")
+        want = "obs" if name == "DeltaChange" else "cm_future"
+        if axis != want:
+            problems.append((f"result of the {label} path has shape {shp}: not on the time axis of {want} (time lengths {list(lens)})",
+                             {**case, "observed": f"shape {shp}"}, {"what": "output_axis"}))
+        elif out.dtype.kind != "f":
+            problems.append((f"result dtype {out.dtype} is not floating ({label} path)", {**case, "observed": str(out.dtype)}, {"what": "result_dtype"}))
+    lines.append(f"outaxis {name}")
+    expect.append(("outaxis", case, axis + " 1"))
+
+
 # ------------------------------------------------------------------ the check
 def run(tier, res, force_search=False):
     logging.getLogger("ibicus").setLevel(logging.CRITICAL)
@@ -402,7 +458,8 @@ def run(tier, res, force_search=False):
     res.rule = ("cases = (debiaser, recipe for obs, recipe for cm_hist, recipe for cm_future) with recipes from a fixed catalogue of "
                 f"{len(RECIPES)} array kinds (clean / non-ndarray / dtype / ndim / spatial shape / NaN / inf / range / masked variants): the full matrix "
                 "argument position x single malformation x 8 debiasers, plus seeded pairs and triples of malformations; and the time-array matrix "
-                "(debiaser x window configuration x every combination of {given right, given wrong length +-1, omitted} over the three time arrays). Non-trivial = at least one "
+                "(debiaser x window configuration x every combination of {given right, given wrong length +-1, omitted} over the three time arrays); and the accept side: well-formed input with three different time lengths through every dispatch path "
+                "(serial / parallel with 1 and 2 processes / failsafe / progress bar, with and without dates). Non-trivial = at least one "
                 "malformed argument / mismatching time array; distinct = distinct (debiaser, recipes) or (debiaser, configuration, deltas) tuples")
     res.trusted = C.BASE_TRUSTED + [
         "translator/extract_contract.py (AST -> step list / helper texts / order facts); the meaning of each helper predicate is its numpy meaning "
@@ -474,6 +531,20 @@ def run(tier, res, force_search=False):
                 flags = check_time_case(name, cfg, d3, res, lines, expect, problems, omit=omit, nfut=nfut)
                 expect[k0 + 1] = ("consumes", expect[k0 + 1][1], flags)
 
+    # ---- accept side: three different time lengths through every dispatch path (serial / parallel / failsafe / progress bar)
+    triples = [(40, 50, 60), (60, 50, 40)]
+    if tier == "thorough":
+        triples += [(45, 33, 38), (30, 61, 47)]
+    for name in DEBS:
+        for k, lens in enumerate(triples):
+            for label, kw in DISPATCH:
+                if tier == "quick" and k > 0 and "nr_processes=2" not in label:
+                    continue
+                check_dispatch(name, lens, label, kw, False, res, lines, expect, problems)
+        check_dispatch(name, triples[rng.randrange(2)], "parallel nr_processes=2", dict(progressbar=False, parallel=True, nr_processes=2), True,
+                       res, lines, expect, problems)
+        check_dispatch(name, triples[rng.randrange(2)], "serial+progressbar", dict(progressbar=True), True, res, lines, expect, problems)
+
     mismatches = []
     try:
         out = C.run_driver("DrvContract", lines)
@@ -510,7 +581,10 @@ def replay(data):
         return 1
     res = C.Result(PROP, "quick")
     lines, expect, problems = [], [], []
-    if "recipes" in fi:
+    if "dispatch" in fi:
+        check_dispatch(fi["debiaser"], tuple(fi["series_lengths"]), fi["dispatch"], fi["apply_kwargs"], fi.get("time_arrays") == "given, matching",
+                       res, lines, expect, problems)
+    elif "recipes" in fi:
         check_case(fi["debiaser"], [fi["recipes"][a] for a in ARGS], res, lines, expect, problems, seed=fi.get("data_seed", 0))
     else:
         deltas = [0 if t is None else t - n for t, n in zip(fi["time_lengths"], fi["series_lengths"])]
